@@ -103,7 +103,8 @@ _G = lambda rng: logu(rng, 1.0, 100.0)          # noqa: E731  Gruneisen constant
 def _ab(rng):
     """(alpha, beta): the module docstring documents -1 <= alpha <= 2, the constructors warn outside
     [-2,-1]; both ranges are drawn (admissibility is decided on the returned fields)."""
-    a = choice(rng, [uni(rng, -2.0, -1.0), uni(rng, -1.0, -0.1), uni(rng, 0.1, 0.9), uni(rng, 1.1, 2.5)])
+    # |alpha| >= 0.6: exponents such as (2 beta + k + 7)/alpha stay below ~25 (float overflow / conditioning otherwise)
+    a = choice(rng, [uni(rng, -2.0, -1.0), uni(rng, -1.0, -0.6), uni(rng, 0.6, 0.9), uni(rng, 1.1, 2.5)])
     return a, uni(rng, 1.0, 3.0)
 
 
